@@ -75,7 +75,10 @@ ALL_VALUES = [G.v_int("1"), {"k": "float", "v": "2.5"}, G.v_str("s"), {"k": "boo
               {"k": "null"}, {"k": "enum", "v": "RED"}, {"k": "list", "vs": []},
               {"k": "list", "vs": [G.v_int("1"), {"k": "list", "vs": [G.v_int("2")]}]}, {"k": "object", "fs": []},
               {"k": "object", "fs": [{"name": "a", "v": G.v_int("1")}, {"k": "x", "name": "b", "v": {"k": "object", "fs": [{"name": "c", "v": G.v_var("v")}]}}]},
-              G.v_var("v")]
+              G.v_var("v"),
+              # names that merely BEGIN like the keywords true / false / null are names (enum values), alone and next to each other in a list
+              {"k": "enum", "v": "trueColor"}, {"k": "enum", "v": "falsey"}, {"k": "enum", "v": "nullable"}, {"k": "enum", "v": "nullx"},
+              {"k": "list", "vs": [{"k": "enum", "v": "trueColor"}, {"k": "enum", "v": "nullable"}, {"k": "enum", "v": "falsey"}, {"k": "bool", "v": True}, {"k": "null"}]}]
 for _v in ALL_VALUES:
     if _v["k"] == "object":
         for f in _v["fs"]:
@@ -148,6 +151,7 @@ def ts_catalog():
                           tdef("union", "W", members=["A", "B"], leadingPipe=True), tdef("union", "U", True, members=["D"]),
                           tdef("union", "U", True, None, dirs), tdef("union", "U", True, None, dirs, members=["E", "F"], leadingPipe=True)]})
     vals = [evalue("RED"), evalue("GREEN", dirs, d1), evalue("BLUE", [G.directive("deprecated", [G.arg("reason", G.v_str("no"))])], db)]
+    docs.append({"defs": [tdef("enum", "Kw", values=[evalue("nullable"), evalue("trueColor"), evalue("falsey"), evalue("truetrue"), evalue("null_")])]})
     docs.append({"defs": [tdef("enum", "E", values=[evalue("A")]), tdef("enum", "F", False, d1, dirs, values=vals), tdef("enum", "E", True, values=vals[:2]),
                           tdef("enum", "E", True, None, dirs)]})
     ifs = [ival(N("Int"), None, None, None, "a"), ival(NN(N("String")), G.v_str("dflt"), dirs, d1, "b"),
